@@ -4,6 +4,8 @@ CONSTANTS
   LenSize = 2
   BodySizes = {1, 2}
   HdrBody = 2
+  DescIds = {1, 2}
+  MaxTransient = 1
   Dev = {}
 INVARIANT IntactPrefix
 INVARIANT CompleteReadsAll
